@@ -16,7 +16,7 @@ def gen(rng: random.Random, tier: str):
         rng.shuffle(rows)
         yield {"rows": rows, "damp_user": rng.choice([0, 0, 1, 2.5, 5]), "damp_item": rng.choice([0, 0, 1, 2.5, 10]),
                "hist": [[rng.choice([1000 + i for i in range(ni)] + [7777]), float(rng.randint(1, 5))] for _ in range(rng.randint(0, 3))],
-               "cutoff": rng.randint(0, 100), "dt_times": rng.random() < 0.5, "const": rng.random() < 0.1}
+               "cutoff": rng.randint(0, 100), "dt_times": rng.random() < 0.6, "dt_unit": rng.choice(["ns", "us", "ms", "s", "ns-utc"]), "const": rng.random() < 0.1}
 
 def _close(a, b, tol): return abs(a - b) <= tol * max(1.0, abs(a), abs(b))
 
@@ -77,7 +77,11 @@ def run(case: dict, lean: Lean) -> Outcome:
     key = None
     cut = case["cutoff"]
     d2 = df.copy()
-    if case["dt_times"]: d2["timestamp"] = pd.to_datetime(d2["timestamp"], unit="s")
+    if case["dt_times"]:
+        unit = case.get("dt_unit", "ns")
+        d2["timestamp"] = pd.to_datetime(d2["timestamp"], unit="s")
+        if unit == "ns-utc": d2["timestamp"] = d2["timestamp"].dt.tz_localize("UTC")          # zone-aware column
+        elif unit != "ns": d2["timestamp"] = d2["timestamp"].astype(f"datetime64[{unit}]")     # coarser date-time resolutions
     try:
         tb = TimeBoundedPopScore(cutoff=dt.datetime.fromtimestamp(cut), score="count"); tb.train(from_interactions_df(d2))
         s = dict(zip(cand, tb(ItemList(item_ids=cand)).scores()))
@@ -95,7 +99,7 @@ def run(case: dict, lean: Lean) -> Outcome:
     if case["const"]: classes.append("constant ratings")
     if case["hist"]: classes.append("history query")
     if any(h[0] == 7777 for h in case["hist"]): classes.append("history with unknown item")
-    if case["dt_times"]: classes.append("date-time timestamps")
+    if case["dt_times"]: classes.append("date-time timestamps"); classes.append("date-time unit " + case.get("dt_unit", "ns"))
     if len(set(counts.values())) < len(counts): classes.append("tied counts")
     return Outcome(corr, spec and corr, tuple(classes), {"failed": failed[:12], "offsets": {"impl_items": [float(x) for x in bm.item_biases], "def_items": res["itemsDef"]}}, key)
 
